@@ -3,14 +3,16 @@ selected lemma in full as `Theorem Cnn_<name> : <statement>. Proof. exact <name>
 usage: mkprops.py C13 Proofs/C13Proofs.v 'v4_|v6_|hash_' "header comment" "Require line"
 """
 import re, sys
-pid, src, pat, header, req = sys.argv[1:6]
-s = open("/verif/coq/" + src).read()
+pid, srcs, pats, header, req = sys.argv[1:6]
 out = ["(* %s *)" % header, req, ""]
-for m in re.finditer(r"^(?:Lemma|Theorem)\s+([\w']+)((?:\s+(?:\([^)]*\)|[\w']+))*)\s*:\s*(.*?)\.\s*\nProof", s, flags=re.S | re.M):
+for src, pat in zip(srcs.split(","), pats.split(",,")):
+  s = open("/verif/coq/" + src).read()
+  for m in re.finditer(r"^(?:Lemma|Theorem)\s+([\w']+)((?:\s+(?:\([^)]*\)|[\w']+))*)\s*:\s*(.*?)\.\s*\nProof", s, flags=re.S | re.M):
     name, binders, stmt = m.group(1), m.group(2).strip(), " ".join(m.group(3).split())
     if not re.match(pat, name):
         continue
     full = ("forall %s, %s" % (binders, stmt)) if binders else stmt
-    out.append("Theorem %s_%s :\n  %s.\nProof. exact %s. Qed.\nPrint Assumptions %s_%s.\n" % (pid, name, full, name, pid, name))
+    if 1:
+      out.append("Theorem %s_%s :\n  %s.\nProof. exact %s. Qed.\nPrint Assumptions %s_%s.\n" % (pid, name, full, name, pid, name))
 open("/verif/coq/Props/%s.v" % pid, "w").write("\n".join(out))
 print(len(out) - 3, "theorems")
